@@ -704,8 +704,11 @@ def gen_programs(rng, wl: Workload) -> list[list]:
                 prog.append(["mkw", ci, rng.random() < 0.3])
             elif r < 0.55:
                 prog.append(["enc", ci, ii, 1, rng.random() < 0.3])
-            elif r < 0.9:
+            elif r < 0.84:
                 prog.append(["dec", ci, ii, 1])
+            elif r < 0.9:
+                # a forward-compatible message (unknown tagged field) decoded in a non-main thread
+                prog.append(["decfwd", ci, ii, rng.choice((7, 100, 127, 128, 16383)), rng.randbytes(rng.choice((0, 1, 5, 130))).hex()])
             elif r < 0.95:
                 prog.append(["encbad", ci, ii, rng.getrandbits(32)])
             else:
